@@ -2,10 +2,11 @@
 # Runs every check against each behaviour-preserving refactoring under seeded/refactors (strict: bit-identical
 # behaviour; loose: equivalent up to last bits / random stream).  Expected: no VIOLATION line that claims a failing
 # input; lines ending in no-failing-input-found (a tie that no longer checks) are allowed.
+# (a patch whose lines a later fix: commit rewrote is kept re-expressed on the current HEAD as <name>_on_head.diff)
 P=${1:-4}
 cd /verif
-ls seeded/refactors/*.diff | xargs -P $P -I{} bash -c 'f={}; tools/alltest.sh $f $(basename $f .diff) >/dev/null 2>&1'
-for f in seeded/refactors/*.diff; do
+ls seeded/refactors/R?_strict.diff seeded/refactors/R?_loose.diff | xargs -P $P -I{} bash -c 'f={}; l=$(basename $f .diff); [ -f "${f%.diff}_on_head.diff" ] && f="${f%.diff}_on_head.diff"; tools/alltest.sh $f $l >/dev/null 2>&1'
+for f in seeded/refactors/R?_strict.diff seeded/refactors/R?_loose.diff; do
   l=$(basename $f .diff); log=.work/alltest/$l.log
   tot=$(grep -c '^VIOLATION' $log); claimed=$(grep '^VIOLATION' $log | grep -vc 'no-failing-input-found')
   echo "$l: checks=$(grep -c '^C[0-9]' $log) broken-ties=$((tot-claimed)) claimed-failing-inputs=$claimed"
